@@ -23,28 +23,46 @@ func init() {
 			}
 			c.saw(qname(f))
 			name := fr.pkg + ".VerifyProof"
-			// the authentication fact: a dominating positive branch on X.Equal(expected) where X is the recomputed hash of the node
+			// the lookup of the proof node: proof.Get(expected) in the verifier itself, or a same-package helper that performs it
+			// on its parameters (`authenticatedProofNode(proof, expectedHash, hash)`, `retrieveProofNode(proof, &expected)`)
+			lk := c10FindLookup(p, f)
+			if lk == nil {
+				c.und("auth-before-traverse", name+": proof.Get", p.Pos(fnPos(f)), "lookup of the proof node not found")
+				continue
+			}
+			get := lk.call
+			// the authentication fact: a dominating positive branch on X.Equal(expected) where X is the recomputed hash of the
+			// node — or the success of a lookup helper every success return of which is under that fact
 			authedAt := func(in ssa.Instruction) (bool, string) {
-				for _, fct := range factsAt(in) {
-					call, ok := fct.Cond.(*ssa.Call)
-					if !ok || !fct.Pos {
-						continue
-					}
-					cal := call.Call.StaticCallee()
-					if cal == nil || cal.Name() != "Equal" || len(call.Call.Args) < 2 {
-						continue
-					}
-					rt := termF(call.Call.Args[0])
-					// content hash: Node.Hash(<hash function parameter>) — not the caching hasher (hasher.hash returns a
-					// hash cached on the untrusted node)
-					if strings.Contains(rt, ".Hash(hash)") {
-						return true, ""
+				if c10HashMatched(in) {
+					return true, ""
+				}
+				if lk.helper != nil && lk.authInside {
+					for _, fct := range factsAt(in) {
+						b, ok := fct.Cond.(*ssa.BinOp)
+						if !ok {
+							continue
+						}
+						var other ssa.Value
+						switch {
+						case isNilConst(b.X):
+							other = b.Y
+						case isNilConst(b.Y):
+							other = b.X
+						default:
+							continue
+						}
+						ex, isEx := other.(*ssa.Extract)
+						if !isEx || ex.Tuple != ssa.Value(lk.call) {
+							continue
+						}
+						if (b.Op == token.EQL && fct.Pos) || (b.Op == token.NEQ && !fct.Pos) {
+							return true, ""
+						}
 					}
 				}
 				return false, strings.Join(factStrings(factsAt(in)), " ∧ ")
 			}
-			authed := func(d dnf) (bool, string) { return false, "" }
-			_ = authed
 			// success returns
 			n := 0
 			for _, ret := range returnsOf(f) {
@@ -58,27 +76,17 @@ func init() {
 			if n == 0 {
 				c.und("auth-before-traverse", name, p.Pos(fnPos(f)), "no success return found")
 			}
-			// uses of the proof node: type assertions on it, calls that take it (get / verifyEdgePath on its fields)
-			var get *ssa.Call
-			for _, s := range sitesOf(f) {
-				if s.Callee != nil && s.Callee.Name() == "Get" && len(s.Args()) > 0 && term(s.Args()[0]) == "proof" {
-					get, _ = s.Instr.(*ssa.Call)
-				}
-			}
-			if get == nil {
-				c.und("auth-before-traverse", name+": proof.Get", p.Pos(fnPos(f)), "lookup of the proof node not found")
-				continue
-			}
 			// the hash comparison itself
-			var eq *Site
+			hasEq := lk.authInside
+			var eqInstr ssa.Instruction
 			for _, s := range sitesOf(f) {
 				if strings.HasSuffix(s.CalleeName(), ").Equal") && dominatesInstr(get, s.Instr) {
-					ss := s
-					eq = &ss
+					hasEq = true
+					eqInstr = s.Instr
 					break
 				}
 			}
-			if eq == nil {
+			if !hasEq {
 				c.viol("auth-before-traverse", name+": hash comparison", p.Pos(fnPos(f)), "the recomputed hash of a proof node is never compared with the expected hash")
 				continue
 			}
@@ -87,12 +95,8 @@ func init() {
 				isUse := false
 				switch x := in.(type) {
 				case *ssa.TypeAssert:
-					if refs := get.Referrers(); refs != nil {
-						for _, r := range *refs {
-							if ex, ok := r.(*ssa.Extract); ok && ex.Index == 0 && flowsFrom(x.X, ex, 0) {
-								isUse = true
-							}
-						}
+					if lk.node != nil && flowsFrom(x.X, lk.node, 0) {
+						isUse = true
 					}
 				case *ssa.Call:
 					nm := ""
@@ -103,7 +107,7 @@ func init() {
 						isUse = true
 					}
 				}
-				if !isUse || in == ssa.Instruction(eq.Instr) {
+				if !isUse || in == eqInstr {
 					return
 				}
 				// the hashing call itself is allowed before the check
@@ -113,16 +117,33 @@ func init() {
 			})
 			// missing node → error
 			okMissing := false
-			for _, ret := range returnsOf(f) {
-				if isNilConst(ret.Results[1]) {
+			scope := f
+			if lk.helper != nil {
+				scope = lk.helper
+			}
+			for _, ret := range returnsOf(scope) {
+				last := ret.Results[len(ret.Results)-1]
+				if isNilConst(last) {
 					continue
 				}
-				if ok, _ := everyDisjunctHas(p.mustHoldAt(ret.Ret), []string{"^!", "proof.Get(", "#1"}); ok {
+				if ok, _ := everyDisjunctHas(p.mustHoldAt(ret.Ret), []string{"^!", ".Get(", "#1"}); ok {
 					okMissing = true
 				}
 			}
+			if lk.helper != nil && okMissing {
+				// … and the verifier returns the helper's error
+				okMissing = false
+				for _, ret := range returnsOf(f) {
+					if isNilConst(ret.Results[1]) {
+						continue
+					}
+					if ex, isEx := ret.Results[1].(*ssa.Extract); isEx && ex.Tuple == ssa.Value(lk.call) {
+						okMissing = true
+					}
+				}
+			}
 			c.check(okMissing, "auth-before-traverse", name+": missing node is an error", p.Pos(fnPos(f)), "absent proof node → error", "a proof that lacks the expected node is no longer rejected")
-			c10NextHashAuthentic(c, f, get, name)
+			c10NextHashAuthentic(c, f, lk, name)
 		}
 		c.floor("next-hash-authentic", 5)
 		c.floor("auth-before-traverse", 7)
@@ -334,20 +355,10 @@ func c10ContentHashPure(c *Ctx) {
 // parameter, (b) a field / hash-node child of the proof node that was just authenticated, or (c) a content hash
 // recomputed with the verifier's hash function. Anything else — in particular a hash cached on a node of the (untrusted)
 // proof — lets an altered proof continue under an attacker-chosen hash (defect F19).
-func c10NextHashAuthentic(c *Ctx, f *ssa.Function, get *ssa.Call, name string) {
+func c10NextHashAuthentic(c *Ctx, f *ssa.Function, lk *c10Lookup, name string) {
 	p := c.P
-	if len(get.Call.Args) < 2 {
-		c.und("next-hash-authentic", name, p.Pos(fnPos(f)), "proof.Get has no key argument")
-		return
-	}
-	var node ssa.Value // the looked-up proof node
-	if refs := get.Referrers(); refs != nil {
-		for _, r := range *refs {
-			if ex, ok := r.(*ssa.Extract); ok && ex.Index == 0 {
-				node = ex
-			}
-		}
-	}
+	get := lk.call
+	node := lk.node // the looked-up proof node
 	fromNode := func(v ssa.Value) bool {
 		// v is the proof node itself, a type-asserted view of it, or the child selected from it by get(node, …)
 		var rec func(v ssa.Value, d int) bool
@@ -438,6 +449,20 @@ func c10NextHashAuthentic(c *Ctx, f *ssa.Function, get *ssa.Call, name string) {
 				return
 			}
 			walk(x.X, d+1)
+		case *ssa.Alloc:
+			// the address of the local that holds the expected hash (handed to a lookup helper): its stores are the sources
+			n := 0
+			if refs := x.Referrers(); refs != nil {
+				for _, r := range *refs {
+					if st, ok := r.(*ssa.Store); ok && st.Addr == ssa.Value(x) {
+						n++
+						walk(st.Val, d+1)
+					}
+				}
+			}
+			if n == 0 {
+				leaves = append(leaves, leaf{false, "local never assigned: " + term(v), v.Pos()})
+			}
 		case *ssa.Parameter:
 			ok := len(f.Params) > 0 && x == f.Params[0]
 			leaves = append(leaves, leaf{ok, "parameter " + x.Name(), x.Pos()})
@@ -481,7 +506,7 @@ func c10NextHashAuthentic(c *Ctx, f *ssa.Function, get *ssa.Call, name string) {
 			leaves = append(leaves, leaf{false, term(v), v.Pos()})
 		}
 	}
-	walk(get.Call.Args[1], 0)
+	walk(lk.key, 0)
 	if len(leaves) < 2 {
 		c.und("next-hash-authentic", name, p.Pos(get.Pos()), fmt.Sprintf("only %d source(s) of the expected hash were found", len(leaves)))
 		return
@@ -495,4 +520,102 @@ func c10NextHashAuthentic(c *Ctx, f *ssa.Function, get *ssa.Call, name string) {
 			"the next expected hash is the root, a child hash stored in the authenticated node, or a recomputed content hash ("+l.what+")",
 			"the next expected hash is taken from "+l.what+" — untrusted proof data (e.g. a hash cached on a proof node) must not decide which node is fetched next")
 	}
+}
+
+// c10Lookup: where a verifier fetches the proof node filed under the expected hash.
+type c10Lookup struct {
+	call       *ssa.Call     // the call in the verifier (proof.Get or the helper)
+	key        ssa.Value     // the expected-hash operand as seen in the verifier
+	node       ssa.Value     // the fetched node as seen in the verifier
+	helper     *ssa.Function // nil for a direct proof.Get
+	authInside bool          // the helper compares the recomputed hash on every success path
+}
+
+func c10DirectGet(fn *ssa.Function) *ssa.Call {
+	var get *ssa.Call
+	for _, s := range sitesOf(fn) {
+		if s.Callee != nil && s.Callee.Name() == "Get" && len(s.Args()) > 1 && strings.Contains(s.Args()[0].Type().String(), "ProofNodeSet") {
+			if call, ok := s.Instr.(*ssa.Call); ok {
+				get = call
+			}
+		}
+	}
+	return get
+}
+
+func c10FindLookup(p *Prog, f *ssa.Function) *c10Lookup {
+	extract0 := func(call *ssa.Call) ssa.Value {
+		if refs := call.Referrers(); refs != nil {
+			for _, r := range *refs {
+				if ex, ok := r.(*ssa.Extract); ok && ex.Index == 0 {
+					return ex
+				}
+			}
+		}
+		return nil
+	}
+	if get := c10DirectGet(f); get != nil {
+		return &c10Lookup{call: get, key: get.Call.Args[1], node: extract0(get)}
+	}
+	for _, s := range sitesOf(f) {
+		g := s.Callee
+		call, isCall := s.Instr.(*ssa.Call)
+		if g == nil || !isCall || len(g.Blocks) == 0 || pkgRelOf(g) != pkgRelOf(f) || g == f {
+			continue
+		}
+		get := c10DirectGet(g)
+		if get == nil {
+			continue
+		}
+		// the key of the helper's Get is (a load of) one of its parameters
+		k := get.Call.Args[1]
+		if u, ok := k.(*ssa.UnOp); ok && u.Op == token.MUL {
+			k = u.X
+		}
+		pa, ok := k.(*ssa.Parameter)
+		if !ok {
+			continue
+		}
+		idx := -1
+		for i, q := range g.Params {
+			if q == pa {
+				idx = i
+			}
+		}
+		if idx < 0 || idx >= len(call.Call.Args) {
+			continue
+		}
+		auth := true
+		ns := 0
+		for _, ret := range returnsOf(g) {
+			if len(ret.Results) < 2 || !isNilConst(ret.Results[len(ret.Results)-1]) {
+				continue
+			}
+			ns++
+			if !c10HashMatched(ret.Ret) {
+				auth = false
+			}
+		}
+		return &c10Lookup{call: call, key: call.Call.Args[idx], node: extract0(call), helper: g, authInside: auth && ns > 0}
+	}
+	return nil
+}
+
+// c10HashMatched: the instruction is reached only under a positive X.Equal(expected) where X is a content hash
+// Node.Hash(<hash function parameter>) — not the caching hasher (hasher.hash returns a hash cached on the untrusted node).
+func c10HashMatched(in ssa.Instruction) bool {
+	for _, fct := range factsAt(in) {
+		call, ok := fct.Cond.(*ssa.Call)
+		if !ok || !fct.Pos {
+			continue
+		}
+		cal := call.Call.StaticCallee()
+		if cal == nil || cal.Name() != "Equal" || len(call.Call.Args) < 2 {
+			continue
+		}
+		if strings.Contains(termF(call.Call.Args[0]), ".Hash(hash)") {
+			return true
+		}
+	}
+	return false
 }
